@@ -391,6 +391,8 @@ def match_filter(s, x, flt):
         return v['id'] == flt['id']
     if flt['kind'] == 'name':
         return dict(v['attrs']).get('name') == repr(flt['name'])
+    if flt['kind'] == 'ids+name':
+        return v['id'] in flt['ids'] and dict(v['attrs']).get('name') == repr(flt['name'])
     if flt['kind'] in ('all', 'none'):
         return True
     raise KeyError(flt['kind'])
@@ -470,7 +472,7 @@ def expected(s0, op):
         cur.insert(i, x)
         return [s], ANY
     if k == 'move':
-        _, holder, xs, before, after, _single = op
+        _, holder, xs, before, after, _single = op[:6]
         holder = tuple(holder)
         xs = uniq_first(xs)
         cur = _hl(s, holder)
@@ -635,6 +637,9 @@ def _flt_args(u, flt):
         return (), {'id': flt['id']}
     if flt['kind'] == 'name':
         return (), {'name': flt['name']}
+    if flt['kind'] == 'ids+name':
+        ids = list(flt['ids'])      # a predicate and a keyword in the same call: both must hold
+        return (lambda t: t.id in ids,), {'name': flt['name']}
     if flt['kind'] == 'none':
         return (), {}                     # no filter at all: everything matches
     if flt['kind'] == 'all':
@@ -726,8 +731,10 @@ def _execute(u, op):
     if k == 'insert':
         return facade(u, op[1]).insert(op[2], u.T(op[3]))
     if k == 'move':
-        _, holder, xs, before, after, single = op
+        _, holder, xs, before, after, single = op[:6]
         arg = u.T(xs[0]) if single else u.TS(xs)
+        if len(op) > 6 and op[6] == 'gen' and not single:
+            arg = (x_ for x_ in list(arg))       # a one-shot iterable of tasks
         return facade(u, holder).move(arg, before=u.T(before), after=u.T(after))
     if k == 'sort':
         _, holder, key, rev = op
